@@ -635,7 +635,7 @@ class Package:
         env = dict(os.environ, PYTHONPATH=os.pathsep.join(self.sys_path))
         try:
             r = subprocess.run([sys.executable, '-c', '\n'.join(lines)], capture_output=True, text=True,
-                               env=env, cwd=self.sys_path[0], timeout=120)
+                               env=env, cwd=self.sys_path[0], timeout=900)
             return json.loads(r.stdout.strip().splitlines()[-1]) if r.returncode == 0 else None
         except Exception:
             return None
